@@ -386,6 +386,12 @@ def check_s4_s6(chk, m, K):
                        "kernel.now (full width): nothing can have become due" % ("re-queue/reset previous fibre -> " if cur else ""),
                        p.ret_inst.loc, fn.name)
                 continue
+            if core == [x for x in want if x != "handle_timerq"] and fib.must_call(m, "get_next_task", "handle_timerq"):
+                # the expiry walk has moved into the pop helper (which runs it on every path): the order of the two inside it is that
+                # helper's business (C02 T3.expiry-every-pass), not something this rule reads off the caller
+                chk.unknown("S4.pass-order", pid, "the expiry walk is run by get_next_task itself (on every path of it), not by "
+                            "fibre_scheduler_next: its order relative to the pop is not decided here", p.ret_inst.loc)
+                continue
             chk.ob("S4.pass-order", pid, core == want,
                    "slow path order must be drain -> %sexpire timers -> pop; observed %s" %
                    ("re-queue/reset previous fibre -> " if cur else "", core), p.ret_inst.loc, fn.name)
